@@ -47,7 +47,15 @@ add("C19", "exploration",
     "transform(train) = scores, unit-norm loadings, invariance under constant shifts of X / Y and equivariance under every sample permutation.",
     "Bounds: n<=6 samples, sample order<=3 with dims {2,3}, rank<=3. Guards (counted): fits that raise on order-1 samples, ridge collapse, PLSR components beyond the data rank. Tolerances 1e-9/1e-12/1e-8.")
 
-READY = ["C01", "C05", "C17", "C19"]
+add("C12", "exploration",
+    "bounded exhaustive enumeration of every vector over a 7-value alphabet (n<=4, 3 scales, vector and matrix form, every parameter) against brute-force minimisers (all supports / all block partitions) + all-pairs firm non-expansiveness",
+    "Every vector v in {-2,-1,-1/2,0,1/2,1,2}^n, n=1..4 (n<=5 and a near-tie alphabet in thorough), three scales, 1-D and n x 2 form, every operator "
+    "(direct and through proximal_operator) and every parameter of a table; the result must be feasible and attain the brute-force optimum of "
+    "penalty + 1/2||x-v||^2 (enumeration of all 2^n supports / all 2^(n-1) block partitions, exact rational solve for smoothness, variational "
+    "certificates for SVT / Procrustes); projections idempotent; firm non-expansiveness on ALL ordered pairs of lattice vectors (n<=3).",
+    "Bounds as stated; tolerance 1e-12*scale^2 on objective values. Not demanded: a penalty for smoothness_prox beyond the one its banded system defines; normalize on zero input.")
+
+READY = ["C01", "C05", "C12", "C17", "C19"]
 for _p in list(CHECKS):
     if _p not in READY:
         del CHECKS[_p]
